@@ -1,5 +1,6 @@
 import ChemModel.Basic.Proto
 import ChemModel.Model.NumFmt
+import ChemModel.Model.NumFmtFloat
 open ChemModel.Proto ChemModel.NumFmt Lean
 
 def str (s : List Char) : String := String.ofList s
@@ -47,16 +48,34 @@ def getParam (j : Json) : Except String (Option Param) := do
     | "other" => do pure (some (.other (← getStr p "text").toList))
     | _ => .error "!bad-arg:param.kind"
 
+def getBits (j : Json) (k : String) : Except String Float := do
+  let n ← getNat j k
+  if n < 2 ^ 64 then pure (Float.ofBits (UInt64.ofNat n)) else .error s!"!bad-arg:{k}"
+
+/-- mode "exact": the ℚ model (what the theorems are about); "float": the float-faithful mirror;
+    "both": `exact ++ U+001F ++ float` -/
+def byMode (j : Json) (exact : Except String Res) (flt : Except String Res) : Except String String := do
+  match ← getStr j "mode" with
+  | "exact" => do pure (showRes (← exact))
+  | "float" => do pure (showRes (← flt))
+  | "both" => do pure (showRes (← exact) ++ "\x1f" ++ showRes (← flt))
+  | _ => .error "!bad-arg:mode"
+
 def h : Handler := fun op j =>
   match op with
   | "fmt_g" => do pure (str (fmtG (← getNat j "p") (← getRat j "x")))
   | "number_to_x" => do
       pure (showRes (numberToX (← getFmt j) (← optArg j "p" asNat) (← getRat j "x") (← optArg j "unit" asChars)))
-  | "number_to_x_uncert" => do
-      pure (showRes (numberToXUncert (← getFmt j) (← optArg j "p" asInt) (← getRat j "x") (← getRat j "xe")
-        (← optArg j "unit" asChars)))
-  | "float_str_w_uncert" => do
-      pure (showRes (floatStrWUncert (← getRat j "x") (← getRat j "xe") (← getInt j "p")))
+  | "number_to_x_uncert" =>
+      byMode j
+        (do pure (numberToXUncert (← getFmt j) (← optArg j "p" asInt) (← getRat j "x") (← getRat j "xe")
+              (← optArg j "unit" asChars)))
+        (do pure (F.numberToXUncertF (← getFmt j) (← optArg j "p" asInt) (← getBits j "xb") (← getBits j "xeb")
+              (← optArg j "unit" asChars)))
+  | "float_str_w_uncert" =>
+      byMode j
+        (do pure (floatStrWUncert (← getRat j "x") (← getRat j "xe") (← getInt j "p")))
+        (do pure (F.floatStrWUncertF (← getBits j "xb") (← getBits j "xeb") (← getInt j "p")))
   | "roman" => do
       if ChemModel.Gen.PrintingNumbers.romanValues.any (· == 0) then pure "ZeroDivisionError" else
       pure (str (roman (← getNat j "n")))
